@@ -761,4 +761,268 @@ theorem okComp_under {env : Env} (he : envOk env = true) {F : Ty} (h : okComp en
 
 end Equal
 
+/-! ## The model computes the specification -/
+
+theorem canEqual_eq_under {env : Env} (hf : env.flagsOk = true) {T : Ty}
+    (hU : env.under T ≠ .fnil) : canEqual env T = canEqual env (env.under T) := by
+  cases T with
+  | named i =>
+    cases hd : env.decl? i with
+    | none => exact absurd (Env.under_named_none hd) hU
+    | some d =>
+      rw [Env.under_named_some hd, ← (Env.flagsOk_decl hf hd).1]
+      simp [canEqual, hd]
+  | _ => rfl
+
+theorem seqEq_false_of_slen_ne {env : Env} {E : Ty} :
+    ∀ xs ys : Val, xs.slen ≠ ys.slen → Spec.seqEq env E xs ys = false := by
+  intro xs
+  induction xs using Val.strongInduction with
+  | step xs ih =>
+  intro ys hne
+  rw [Spec.seqEq.eq_def]
+  cases xs with
+  | snil => cases ys <;> first | rfl | (simp [Val.slen] at hne)
+  | scons a r =>
+    cases ys with
+    | scons b s =>
+      simp only
+      rw [ih r (by simp <;> omega) s (by simpa [Val.slen] using hne), Bool.and_false]
+    | _ => rfl
+  | _ => rfl
+
+theorem isByte_canEqual {env : Env} {E : Ty} (h : isByte E = true) : canEqual env E = true := by
+  cases E <;> first | rfl | (simp [isByte] at h)
+
+open Spec Equal in
+/-- the five functions of the mutual block agree with the five functions of the specification -/
+structure EqualOK (env : Env) (x : Val) : Prop where
+  top : ∀ T y, okTop env T = true → hasType env T x = true → hasType env T y = true →
+    Equal.top env T x y = .ok (structEq env T x y)
+  field : ∀ F y, okComp env F = true → hasType env F x = true → hasType env F y = true →
+    Equal.field env F x y = .ok (structEq env F x y)
+  fields : ∀ fs ys, okComp env fs = true → fieldsHaveType env fs x = true →
+    fieldsHaveType env fs ys = true → Equal.fields env fs x ys = .ok (fieldsEq env fs x ys)
+  elems : ∀ E ys, okComp env E = true → allHaveType env E x = true →
+    allHaveType env E ys = true → x.slen = ys.slen →
+    Equal.elems env E x ys = .ok (seqEq env E x ys)
+  entries : ∀ K V ys, okComp env V = true → canEqual env K = true →
+    entriesHaveType env K V x = true → entriesHaveType env K V ys = true →
+    keysDistinct ys = true → Equal.entries env V x ys = .ok (entriesIn env K V x ys)
+
+section Steps
+open Spec Equal
+variable {env : Env} (hf : env.flagsOk = true) (he : envOk env = true)
+
+theorem EqualOK.step_fields (x : Val) (ih : ∀ z, sizeOf z < sizeOf x → EqualOK env z) :
+    ∀ fs ys, okComp env fs = true → fieldsHaveType env fs x = true →
+    fieldsHaveType env fs ys = true → Equal.fields env fs x ys = .ok (fieldsEq env fs x ys) := by
+  intro fs ys ho hx hy
+  rcases fieldsHaveType_inv hx with ⟨rfl, rfl⟩ | ⟨F, rest, a, r, rfl, rfl, ha, hr⟩
+  · rcases fieldsHaveType_inv hy with ⟨-, rfl⟩ | ⟨_, _, _, _, h, _⟩
+    · rw [Equal.fields, Spec.fieldsEq]
+    · cases h
+  · rcases fieldsHaveType_inv hy with ⟨h, -⟩ | ⟨F', rest', b, s, h, rfl, hb, hs⟩
+    · cases h
+    · cases h
+      simp only [okComp, Bool.and_eq_true] at ho
+      rw [Equal.fields, Spec.fieldsEq, (ih a (by simp <;> omega)).field F b ho.1 ha hb, Res.bind_ok,
+        (ih r (by simp <;> omega)).fields rest s ho.2 hr hs]
+      cases structEq env F a b <;> rfl
+
+theorem EqualOK.step_elems (x : Val) (ih : ∀ z, sizeOf z < sizeOf x → EqualOK env z) :
+    ∀ E ys, okComp env E = true → allHaveType env E x = true →
+    allHaveType env E ys = true → x.slen = ys.slen →
+    Equal.elems env E x ys = .ok (seqEq env E x ys) := by
+  intro E ys ho hx hy hl
+  rcases allHaveType_inv hx with rfl | ⟨a, r, rfl, ha, hr⟩ <;>
+    rcases allHaveType_inv hy with rfl | ⟨b, s, rfl, hb, hs⟩
+  · rw [Equal.elems, Spec.seqEq]
+  · simp [Val.slen] at hl
+  · simp [Val.slen] at hl
+  · have hl' : r.slen = s.slen := by simpa [Val.slen] using hl
+    rw [Equal.elems, Spec.seqEq, (ih a (by simp <;> omega)).field E b ho ha hb, Res.bind_ok,
+      (ih r (by simp <;> omega)).elems E s ho hr hs hl']
+    cases structEq env E a b <;> rfl
+
+include hf in
+theorem EqualOK.step_entries (x : Val) (ih : ∀ z, sizeOf z < sizeOf x → EqualOK env z) :
+    ∀ K V ys, okComp env V = true → canEqual env K = true →
+    entriesHaveType env K V x = true → entriesHaveType env K V ys = true →
+    keysDistinct ys = true → Equal.entries env V x ys = .ok (entriesIn env K V x ys) := by
+  intro K V ys hV hK hx hy hd
+  rcases entriesHaveType_inv hx with rfl | ⟨k, v, r, rfl, hk, hv, hr⟩
+  · rw [Equal.entries, Spec.entriesIn]
+  · rw [Equal.entries, Spec.entriesIn, valueAt_eq_lookup hf hK hk ys hy hd]
+    cases hl : mapLookup k ys with
+    | none => rfl
+    | some w =>
+      have hw := mapLookup_hasType ys hy hl
+      simp only
+      rw [(ih v (by simp <;> omega)).field V w hV hv hw, Res.bind_ok,
+        (ih r (by simp <;> omega)).entries K V ys hV hK hr hy hd]
+      cases structEq env V v w <;> rfl
+
+include hf he in
+theorem EqualOK.step_top (x : Val) (ih : ∀ z, sizeOf z < sizeOf x → EqualOK env z) :
+    ∀ T y, okTop env T = true → hasType env T x = true → hasType env T y = true →
+    Equal.top env T x y = .ok (structEq env T x y) := by
+  intro T y hT hx hy
+  have hUok := okTop_under he hT
+  have hnn := Env.under_not_named hf T
+  cases hU : env.under T with
+  | basic b =>
+    rw [top_basic hU, structEq_basic hU, goEq_eq_leafEq (by rwa [hasType_basic hU] at hx)]
+  | ptr R =>
+    rw [hU] at hUok
+    simp only [okTop, okComp, Bool.and_eq_true] at hUok
+    obtain ⟨hRns, hR⟩ := hUok
+    rw [structEq_ptr hU]
+    by_cases hS : ∃ fs, env.under R = .struct fs
+    · obtain ⟨fs, hS⟩ := hS
+      have hn : R.isNamed = true := by
+        cases R <;> simp_all [Env.under, Ty.isNamed]
+      have hfs : okComp env fs = true := by
+        have := okTop_under he (okTop_of_okComp hR)
+        rw [hS] at this; exact this
+      rw [top_ptr_struct hU hS hn]
+      rcases hasType_ptr_inv hU hx with rfl | ⟨a, v, rfl, hv⟩ <;>
+        rcases hasType_ptr_inv hU hy with rfl | ⟨b, w, rfl, hw⟩ <;> try rfl
+      obtain ⟨xs, rfl, hxs⟩ := hasType_struct_inv hS hv
+      obtain ⟨ys, rfl, hys⟩ := hasType_struct_inv hS hw
+      simp only
+      rw [structEq_struct hS]
+      exact (ih xs (by simp <;> omega)).fields fs ys hfs hxs hys
+    · rw [top_ptr_other hU (fun fs h => hS ⟨fs, h⟩)]
+      rcases hasType_ptr_inv hU hx with rfl | ⟨a, v, rfl, hv⟩ <;>
+        rcases hasType_ptr_inv hU hy with rfl | ⟨b, w, rfl, hw⟩ <;> try rfl
+      exact (ih v (by simp <;> omega)).top R w (okTop_of_okComp hR) hv hw
+  | struct fs =>
+    rw [hU] at hUok
+    have hfs : okComp env fs = true := hUok
+    obtain ⟨xs, rfl, hxs⟩ := hasType_struct_inv hU hx
+    obtain ⟨ys, rfl, hys⟩ := hasType_struct_inv hU hy
+    by_cases hn : T.isNamed = true
+    · rw [top_struct_named hU hn, structEq_struct hU]
+      exact (ih xs (by simp <;> omega)).fields fs ys hfs hxs hys
+    · have hn' : T.isNamed = false := by simpa using hn
+      cases hc : canEqual env (.struct fs) with
+      | false =>
+        rw [top_struct_fields hU hn' hc, structEq_struct hU]
+        exact (ih xs (by simp <;> omega)).fields fs ys hfs hxs hys
+      | true =>
+        rw [top_struct_eq hU hn' hc]
+        have hTU : env.under T = T := env.under_of_not_named hn'
+        rw [hTU] at hU
+        subst hU
+        rw [goEq_eq_structEq hf _ hc hx]
+  | slice E =>
+    rw [hU] at hUok
+    have hE : okComp env E = true := hUok
+    rw [top_slice hU, structEq_slice hU]
+    rcases hasType_slice_inv hU hx with rfl | ⟨a, sp, xs, rfl, hxs⟩ <;>
+      rcases hasType_slice_inv hU hy with rfl | ⟨b, sp', ys, rfl, hys⟩ <;> try rfl
+    simp only
+    by_cases hl : xs.slen = ys.slen
+    · rw [if_neg (by simpa using hl)]
+      exact (ih xs (by simp <;> omega)).elems E ys hE hxs hys hl
+    · rw [if_pos (by simpa using hl), seqEq_false_of_slen_ne xs ys hl]
+  | array n E =>
+    rw [hU] at hUok
+    have hE : okComp env E = true := hUok
+    rw [top_array hU, structEq_array hU]
+    obtain ⟨xs, rfl, hlx, hxs⟩ := hasType_array_inv hU hx
+    obtain ⟨ys, rfl, hly, hys⟩ := hasType_array_inv hU hy
+    exact (ih xs (by simp <;> omega)).elems E ys hE hxs hys (by rw [hlx, hly])
+  | map K V =>
+    rw [hU] at hUok
+    simp only [okTop, okComp, Bool.and_eq_true] at hUok
+    rw [top_map hU, structEq_map hU]
+    rcases hasType_map_inv hU hx with rfl | ⟨a, xs, rfl, hK, hxs, -⟩ <;>
+      rcases hasType_map_inv hU hy with rfl | ⟨b, ys, rfl, -, hys, hd⟩ <;> try rfl
+    simp only
+    by_cases hl : xs.slen = ys.slen
+    · have hb : (xs.slen == ys.slen) = true := by rw [hl]; exact beq_self_eq_true _
+      rw [if_neg (by simpa using hl), (ih xs (by simp <;> omega)).entries K V ys hUok.2 hK hxs hys hd,
+        hb, Bool.true_and]
+    · have hb : (xs.slen == ys.slen) = false := beq_eq_false_iff_ne.mpr hl
+      rw [if_pos (by simpa using hl), hb, Bool.false_and]
+  | named i => rw [hU] at hnn; simp [Ty.isNamed] at hnn
+  | _ => rw [hasType_bad (by rw [hU])] at hx; cases hx
+
+include hf he in
+theorem EqualOK.step_field (x : Val)
+    (htop : ∀ T y, okTop env T = true → hasType env T x = true → hasType env T y = true →
+      Equal.top env T x y = .ok (structEq env T x y))
+    (ih : ∀ z, sizeOf z < sizeOf x → EqualOK env z) :
+    ∀ F y, okComp env F = true → hasType env F x = true → hasType env F y = true →
+    Equal.field env F x y = .ok (structEq env F x y) := by
+  intro F y hF hx hy
+  cases hc : canEqual env F with
+  | true => rw [field_canEqual hc, goEq_eq_structEq hf y hc hx]
+  | false =>
+    have hUok := okTop_under he (okTop_of_okComp hF)
+    have hnn := Env.under_not_named hf F
+    cases hU : env.under F with
+    | ptr R =>
+      rw [hU] at hUok
+      by_cases hRn : R.isNamed = true
+      · have hcg : env.under F = env.under (.ptr R) := by rw [hU]; rfl
+        rw [field_ptr_named hc hU hRn, structEq_congr hcg]
+        exact htop (.ptr R) y hUok (by rwa [← hasType_congr hcg]) (by rwa [← hasType_congr hcg])
+      · have hRn' : R.isNamed = false := by simpa using hRn
+        simp only [okTop, okComp, Bool.and_eq_true] at hUok
+        rw [field_ptr_unnamed hc hU hRn', structEq_ptr hU]
+        rcases hasType_ptr_inv hU hx with rfl | ⟨a, v, rfl, hv⟩ <;>
+          rcases hasType_ptr_inv hU hy with rfl | ⟨b, w, rfl, hw⟩ <;> try rfl
+        exact (ih v (by simp <;> omega)).field R w hUok.2 hv hw
+    | array n E =>
+      rw [hU] at hUok
+      have hcg : env.under F = env.under (.array n E) := by rw [hU]; rfl
+      rw [field_array hc hU, structEq_congr hcg]
+      exact htop _ y hUok (by rwa [← hasType_congr hcg]) (by rwa [← hasType_congr hcg])
+    | slice E =>
+      rw [hU] at hUok
+      cases hb : isByte E with
+      | true =>
+        rw [field_slice_byte hc hU hb, structEq_slice hU]
+        rcases hasType_slice_inv hU hx with rfl | ⟨a, sp, xs, rfl, hxs⟩ <;>
+          rcases hasType_slice_inv hU hy with rfl | ⟨b, sp', ys, rfl, hys⟩ <;> try rfl
+        simp only [bytesEqual]
+        rw [goEq_eq_seqEq hf ys (isByte_canEqual hb) hxs]
+      | false =>
+        have hcg : env.under F = env.under (.slice E) := by rw [hU]; rfl
+        rw [field_slice hc hU hb, structEq_congr hcg]
+        exact htop _ y hUok (by rwa [← hasType_congr hcg]) (by rwa [← hasType_congr hcg])
+    | map K V =>
+      rw [hU] at hUok
+      have hcg : env.under F = env.under (.map K V) := by rw [hU]; rfl
+      rw [field_map hc hU, structEq_congr hcg]
+      exact htop _ y hUok (by rwa [← hasType_congr hcg]) (by rwa [← hasType_congr hcg])
+    | struct fs =>
+      by_cases hn : F.isNamed = true
+      · rw [field_struct_named hc hU hn]
+        exact htop F y (okTop_of_okComp hF) hx hy
+      · have hn' : F.isNamed = false := by simpa using hn
+        rw [env.under_of_not_named hn'] at hU
+        subst hU
+        simp only [okComp] at hF
+        rw [hF] at hc; cases hc
+    | basic b =>
+      rw [canEqual_eq_under hf (by rw [hU]; intro h; cases h), hU] at hc
+      simp [canEqual] at hc
+    | named i => rw [hU] at hnn; simp [Ty.isNamed] at hnn
+    | _ => rw [hasType_bad (by rw [hU])] at hx; cases hx
+
+end Steps
+
+open Equal in
+theorem equalOK {env : Env} (hf : env.flagsOk = true) (he : envOk env = true) (x : Val) :
+    EqualOK env x := by
+  induction x using Val.strongInduction with
+  | step x ih =>
+  have htop := EqualOK.step_top hf he x ih
+  exact ⟨htop, EqualOK.step_field hf he x htop ih, EqualOK.step_fields x ih,
+    EqualOK.step_elems x ih, EqualOK.step_entries hf x ih⟩
+
 end Goderive
